@@ -165,6 +165,14 @@ func (s *SMS) HijackAuth(w http.ResponseWriter, r *http.Request, handled bool) (
 		return false, nil
 	}
 
+	// A code that is still in the session was generated for the login that was
+	// parked there before. If that was another account, drop it: when the send
+	// below is rate-limited (or fails) no new code replaces it, and the old one
+	// must not complete this account's login.
+	if prev, ok := authboss.GetSession(r, SessionSMSPendingPID); !ok || prev != user.GetPID() {
+		authboss.DelSession(w, SessionSMSSecret)
+	}
+
 	authboss.PutSession(w, SessionSMSPendingPID, user.GetPID())
 	err := s.SendCodeToUser(w, r, user.GetPID(), number)
 	if err != nil && err != errSMSRateLimit {
